@@ -1,76 +1,19 @@
 //verif:pkg pkg/core
-//verif:use store,corehelp
+//verif:use store,corehelp,diamondhelp
 //verif:assume crash model: fail-stop stores. The solver picks the mutating store call (over the metadata, label and blob stores together) at which the process dies and whether that call lands; from then on every store call of the dying run fails without effect; third variant: a transient fault - that one call fails without effect and everything else works. Afterwards the stores are revived and the real observers run. Object writes are atomic (object-store contract)
 //verif:assume bundle ids are ksuids: later uploads get larger ids when they start in a later second (the library's contract; the model clock advances on every reading, the native replay waits for the next second)
-//verif:assume history: repository r with one committed bundle (file a) carrying label v1, uploaded through the real code; the interrupted operation is the upload of a second bundle (files a - same content - and b, one entry per index file)
-//verif:cover VerifC06UploadCrash crashed-before-descriptor crashed-between-index-files completed descriptor-landed-then-crash transient-fault
+//verif:assume history: repository r with one committed bundle (file a) carrying label v1, uploaded through the real code; the interrupted operation is the upload of a second bundle (files a - same content - and b; one entry per index file, or three so that the list goes out in the final partial flush)
+//verif:cover VerifC06CommitCrash commit-interrupted
+//verif:cover VerifC06UploadCrash crashed-before-descriptor crashed-between-index-files completed descriptor-landed-then-crash transient-fault final-partial-list
 package core
 
 import (
 	"context"
-	"errors"
 
 	"github.com/oneconcern/datamon/pkg/core/status"
 	"github.com/oneconcern/datamon/pkg/model"
 	"go.uber.org/zap"
 )
-
-var errVDead = errors.New("process died: store unreachable")
-
-// vCrasher installs the fail-stop crash model on a set of stores.
-type vCrasher struct {
-	transient bool // the chosen call fails (without effect) but the process and the stores go on
-	stores  []*vStore
-	crashAt int // 1-based index of the mutating call at which the process dies (0: never)
-	landed  bool
-	count   int
-	dead    bool
-	pending bool
-	crashed bool
-}
-
-func (c *vCrasher) install() {
-	for _, s := range c.stores {
-		s.fail = func(op, key string) error {
-			if c.dead {
-				return errVDead
-			}
-			if op == "put" || op == "delete" {
-				c.count++
-				if c.crashAt > 0 && c.count == c.crashAt {
-					c.crashed = true
-					if c.transient {
-						return errVFault
-					}
-					if c.landed {
-						c.pending = true // dies right after this call has taken effect
-						return nil
-					}
-					c.dead = true
-					return errVDead
-				}
-			}
-			return nil
-		}
-		s.after = func(op, key string) {
-			if c.pending {
-				c.pending = false
-				c.dead = true
-			}
-		}
-	}
-}
-
-func (c *vCrasher) revive() {
-	if c.pending { // the landing call failed for another reason (e.g. exists): the process died anyway
-		c.pending = false
-	}
-	c.dead = false
-	for _, s := range c.stores {
-		s.fail = nil
-		s.after = nil
-	}
-}
 
 func VerifC06UploadCrash() {
 	vBudget(300000000)
@@ -79,6 +22,12 @@ func VerifC06UploadCrash() {
 	stores := vCtxStoresAll(meta, vmeta, blob)
 	ctx := context.Background()
 	vAssert(CreateRepo(model.RepoDescriptor{Name: "r", Description: "d", Contributor: model.Contributor{Name: "n", Email: "e@x.io"}}, stores) == nil, "create-repo")
+	// entries per index file: 1 = every list is flushed when full, 3 = the two entries go out in the final, partial flush
+	E := uint(1)
+	if vChoose("entriesPerFile", 2) == 1 {
+		E = 3
+		vCover("final-partial-list")
+	}
 	upload := func(files map[string][]byte, order []string) (*Bundle, error) {
 		src := newVStore("src")
 		for _, n := range order {
@@ -88,7 +37,7 @@ func VerifC06UploadCrash() {
 			BundleDescriptor(model.NewBundleDescriptor(model.Message("m"), model.BundleContributor(model.Contributor{Name: "n", Email: "e@x.io"}))),
 			ConcurrentFileUploads(2))
 		b.BundleDescriptor.LeafSize = 64
-		err := implUpload(ctx, b, 1, nil)
+		err := implUpload(ctx, b, E, nil)
 		return b, err
 	}
 	ca := []byte("content-a")
@@ -140,6 +89,9 @@ func VerifC06UploadCrash() {
 	_, hasDesc := meta.data[model.GetArchivePathToBundle("r", newID)]
 	_, hasI0 := meta.data[model.GetArchivePathToBundleFileList("r", newID, 0)]
 	_, hasI1 := meta.data[model.GetArchivePathToBundleFileList("r", newID, 1)]
+	if E == 3 {
+		hasI1 = hasI0 // a single index file
+	}
 	complete := hasDesc && hasI0 && hasI1
 	if hasDesc {
 		vAssert(hasI0 && hasI1, "descriptor-is-written-after-all-file-lists")
@@ -185,7 +137,7 @@ func VerifC06UploadCrash() {
 	}
 	// get / download of the new bundle id
 	probe := NewBundle(Repo("r"), ContextStores(stores), BundleID(newID), Logger(zap.NewNop()))
-	derr := implPublishMetadata(ctx, probe, false, 1) // DownloadMetadata with the index-file size this harness uploads with
+	derr := implPublishMetadata(ctx, probe, false, E) // DownloadMetadata with the index-file size this harness uploads with
 	if !complete {
 		vAssert(derr != nil, "partial-bundle-cannot-be-fetched")
 	} else {
@@ -195,7 +147,7 @@ func VerifC06UploadCrash() {
 	// the committed bundle still downloads with its content; the label still resolves
 	dst := newVStore("dst")
 	down := NewBundle(Repo("r"), ContextStores(stores), ConsumableStore(dst), BundleID(old.BundleID), Logger(zap.NewNop()), ConcurrentFileDownloads(2), ConcurrentFilelistDownloads(2))
-	vAssert(implPublish(ctx, down, 1, nil) == nil, "committed-bundle-still-downloads")
+	vAssert(implPublish(ctx, down, E, nil) == nil, "committed-bundle-still-downloads")
 	vAssert(string(dst.data["a"]) == string(ca), "committed-bundle-content-intact")
 	l2 := NewLabel(LabelDescriptor(model.NewLabelDescriptor(model.LabelName("v1"))))
 	vAssert(l2.DownloadDescriptor(ctx, NewBundle(Repo("r"), ContextStores(stores), Logger(zap.NewNop())), true) == nil && l2.Descriptor.BundleID == old.BundleID, "label-still-resolves")
@@ -207,4 +159,85 @@ func VerifC06UploadCrash() {
 		lt, e := GetLatestBundle("r", stores)
 		vAssert(e == nil && lt == rb.BundleID, "retried-bundle-becomes-latest")
 	}
+}
+
+// VerifC06CommitCrash: the same crash / fault model applied to a diamond commit.
+func VerifC06CommitCrash() {
+	vBudget(600000000)
+	vUnwind(300000)
+	w := vNewDiamondWorld()
+	stores := vCtxStoresAll(w.meta, w.vmeta, w.blob)
+	ctx := context.Background()
+	// a committed bundle and a label exist already
+	src := newVStore("src")
+	src.putRaw("a", []byte("old-a"))
+	old := NewBundle(Repo("r"), ContextStores(stores), ConsumableStore(src), Logger(zap.NewNop()),
+		BundleDescriptor(model.NewBundleDescriptor(model.Message("m"), model.BundleContributor(vContrib()))), ConcurrentFileUploads(2))
+	old.BundleDescriptor.LeafSize = 64
+	vAssert(implUpload(ctx, old, defaultBundleEntriesPerFile, nil) == nil, "first-upload")
+	lab := NewLabel(LabelDescriptor(model.NewLabelDescriptor(model.LabelName("v1"), model.LabelContributor(vContrib()))))
+	vAssert(lab.UploadDescriptor(ctx, old) == nil, "label-set")
+	vNextSecond()
+	vAssert(w.splitAdd("s1", vFilesV1, []string{"a", "c"}) == nil, "split")
+	beforeM, beforeB := vSnapshot(w.meta), vSnapshot(w.blob)
+	beforeLabel := string(w.vmeta.data[model.GetArchivePathToLabel("r", "v1")])
+
+	cr := &vCrasher{stores: []*vStore{w.meta, w.vmeta, w.blob}}
+	cr.crashAt = vChoose("crashAt", 4) + 1
+	switch vChoose("how", 3) {
+	case 1:
+		cr.landed = true
+	case 2:
+		cr.transient = true
+	}
+	cr.install()
+	w.meta.ops, w.vmeta.ops = nil, nil
+	vNextSecond()
+	newID, cerr := w.commit(model.EnableConflicts)
+	cr.revive()
+	vAssume(cr.crashed)
+	vCover("commit-interrupted")
+	for _, st := range []*vStore{w.meta, w.vmeta} {
+		for _, o := range st.ops {
+			if (o.Op == "put" || o.Op == "put-exists" || o.Op == "put-failed") && ((len(o.Key) > 8 && o.Key[:8] == "bundles/") || (len(o.Key) > 9 && o.Key[:9] == "diamonds/")) {
+				vAssert(o.NoOverw, "commit-metadata-written-create-if-absent")
+			}
+		}
+	}
+	_, hasDesc := w.meta.data[model.GetArchivePathToBundle("r", newID)]
+	_, hasI0 := w.meta.data[model.GetArchivePathToBundleFileList("r", newID, 0)]
+	complete := hasDesc && hasI0
+	if hasDesc {
+		vAssert(hasI0, "descriptor-is-written-after-all-file-lists")
+	}
+	if !complete {
+		vAssert(cerr != nil, "interrupted-commit-reports-failure")
+	}
+	for k, v := range beforeM {
+		nv, ok := w.meta.data[k]
+		vAssert(ok && string(nv) == v, "committed-metadata-intact")
+	}
+	for k, v := range beforeB {
+		nv, ok := w.blob.data[k]
+		vAssert(ok && string(nv) == v, "committed-blobs-intact")
+	}
+	vAssert(string(w.vmeta.data[model.GetArchivePathToLabel("r", "v1")]) == beforeLabel, "labels-intact")
+	bundles, lerr := ListBundles("r", stores)
+	vAssert(lerr == nil, "listing-works-after-crash")
+	seenOld, seenNew := false, false
+	for _, b := range bundles {
+		seenOld = seenOld || b.ID == old.BundleID
+		seenNew = seenNew || b.ID == newID
+	}
+	vAssert(seenOld && seenNew == complete && len(bundles) <= 2, "new-bundle-listed-iff-all-its-metadata-was-written")
+	latest, gerr := GetLatestBundle("r", stores)
+	vAssert(gerr == nil, "latest-bundle-resolves-after-crash")
+	if complete {
+		vAssert(latest == newID, "latest-is-the-new-bundle-once-complete")
+	} else {
+		vAssert(latest == old.BundleID, "latest-never-names-a-partial-bundle")
+	}
+	probe := NewBundle(Repo("r"), ContextStores(stores), BundleID(newID), Logger(zap.NewNop()))
+	derr := DownloadMetadata(ctx, probe)
+	vAssert((derr == nil) == complete, "bundle-fetchable-iff-complete")
 }
